@@ -32,7 +32,7 @@ func TestProp(t *testing.T) {
 		"off:none", "off:kind:null", "off:kind:type", "off:under-list", "off:nonnull-chain>=2", "off:at-root-field", "off:in-abstract",
 		"off:depth>=2", "out:data-null", "out:partial-null", "out:no-errors", "op:abstract>=2conds", "op:alias", "op:named-fragment",
 		"op:inline-fragment", "op:typename", "tree:OnTypeNames", "mut:missing", "mut:null", "mut:wrongkind", "mut:arr2obj", "mut:obj2arr",
-		"mut:tn-unknown", "mut:tn-missing", "mut:tn-nonmember", "mut:tn-degenerate", "mut:tnfield-degenerate", "off:typename:concrete-position", "off:typename:empty-string", "mut:enum-invalid", "mut:extra-key", "mut:ragged", "mut:inner-scalar",
+		"mut:tn-unknown", "mut:tn-missing", "mut:tn-nonmember", "mut:tn-degenerate", "mut:tnfield-degenerate", "off:typename:concrete-position", "off:typename:empty-string", "off:typename:empty-string:concrete-object", "mut:enum-invalid", "mut:extra-key", "mut:ragged", "mut:inner-scalar",
 		"repl:list-item", "repl:object-field", "repl:nested-list-item", "engine:requests=1",
 	)
 	r.Regress(dispatch())
